@@ -114,6 +114,12 @@ impl EstablishProof {
         let close_state_blinding_factor =
             CloseStateBlindingFactor(close_state_proof_builder.message_blinding_factor());
 
+        // Retrieve commitment scalars from the close state proof for public values:
+        // the channel id, the close tag, and the balances.
+        // (Recall: the commitment scalars for the channel id and balances will match the
+        // state proof by construction)
+        let commitment_scalars = *close_state_proof_builder.conjunction_commitment_scalars();
+
         // Form a challenge.
         let challenge = ChallengeBuilder::new()
             // Incorporate public values.
@@ -122,6 +128,11 @@ impl EstablishProof {
             .with(&CLOSE_SCALAR)
             .with(&state.customer_balance().to_scalar())
             .with(&state.merchant_balance().to_scalar())
+            // Incorporate the commitment scalars revealed for the public values.
+            .with(&commitment_scalars[0])
+            .with(&commitment_scalars[1])
+            .with(&commitment_scalars[3])
+            .with(&commitment_scalars[4])
             // Incorporate commitments and commitment scalars from proofs.
             .with(&state_proof_builder)
             .with(&close_state_proof_builder)
@@ -129,11 +140,6 @@ impl EstablishProof {
             .with_bytes(&context.as_bytes())
             .finish();
 
-        // Retrieve commitment scalars from the close state proof for public values:
-        // the channel id, the close tag, and the balances.
-        // (Recall: the commitment scalars for the channel id and balances will match the
-        // state proof by construction)
-        let commitment_scalars = close_state_proof_builder.conjunction_commitment_scalars();
         (
             Self {
                 channel_id_commitment_scalar: commitment_scalars[0],
@@ -170,6 +176,11 @@ impl EstablishProof {
             .with(&CLOSE_SCALAR)
             .with(&public_values.customer_balance.to_scalar())
             .with(&public_values.merchant_balance.to_scalar())
+            // Incorporate the commitment scalars revealed for the public values.
+            .with(&self.channel_id_commitment_scalar)
+            .with(&self.close_tag_commitment_scalar)
+            .with(&self.customer_balance_commitment_scalar)
+            .with(&self.merchant_balance_commitment_scalar)
             // Incorporate commitment and commitment scalars from proofs.
             .with(&self.state_proof)
             .with(&self.close_state_proof)
